@@ -601,7 +601,7 @@ package validate
 //@   requires[C04,C06] entriesOK(s.allOfValidators) && entriesApart(s.allOfValidators) && entriesExist(s.allOfValidators) && ownsList(s, s.allOfValidators) && resP(mainResult) && resP(keepResultAllOf) && mainResult != keepResultAllOf
 //@   modifies all(mainResult), elems(mainResult.Errors), elems(mainResult.Warnings), all(keepResultAllOf), elems(keepResultAllOf.Errors), elems(keepResultAllOf.Warnings)
 //@   ensures[C04] resP(mainResult) && resP(keepResultAllOf) && !redeemed(s) && arrsOK(mainResult) && arrsOK(keepResultAllOf)
-//@   ensures[C04] forall(k, 0, len(s.allOfValidators), ite(old(s.Options.recycleValidators), s.allOfValidators[k] == nil, s.allOfValidators[k] == old(s.allOfValidators[k])))
+//@   ensures[C04,C08] forall(k, 0, len(s.allOfValidators), ite(old(s.Options.recycleValidators), s.allOfValidators[k] == nil, s.allOfValidators[k] == old(s.allOfValidators[k])))
 //@   ensures[C08] implies(!old(s.Options.recycleValidators), unchanged(all(s)))
 //@   loop 1 invariant[C04] resP(mainResult) && resP(keepResultAllOf) && !redeemed(s) && unchanged(all(s)) && ownsList(s, s.allOfValidators) && arrsOK(mainResult) && arrsOK(keepResultAllOf)
 //@   loop 1 invariant[C04] forall(k, idx1 + 1, len(s.allOfValidators), s.allOfValidators[k] == old(s.allOfValidators[k]))
@@ -615,8 +615,8 @@ package validate
 //@   requires[C04,C06] entriesOK(s.anyOfValidators) && entriesApart(s.anyOfValidators) && entriesExist(s.anyOfValidators) && ownsList(s, s.anyOfValidators) && resP(mainResult) && resP(keepResultAnyOf) && mainResult != keepResultAnyOf
 //@   modifies all(mainResult), elems(mainResult.Errors), elems(mainResult.Warnings), all(keepResultAnyOf), elems(keepResultAnyOf.Errors), elems(keepResultAnyOf.Warnings), mapof(keepResultAnyOf.cachedFieldSchemata), mapof(keepResultAnyOf.cachedItemSchemata)
 //@   ensures[C04] resP(mainResult) && resP(keepResultAnyOf) && !redeemed(s) && arrsOK(mainResult) && arrsOK(keepResultAnyOf)
-//@   ensures[C04] forall(k, 0, len(s.anyOfValidators), s.anyOfValidators[k] == nil || s.anyOfValidators[k] == old(s.anyOfValidators[k]))
-//@   ensures[C04] forall(k, 0, len(s.anyOfValidators), implies(!old(s.Options.recycleValidators), s.anyOfValidators[k] == old(s.anyOfValidators[k])))
+//@   ensures[C04,C08] forall(k, 0, len(s.anyOfValidators), s.anyOfValidators[k] == nil || s.anyOfValidators[k] == old(s.anyOfValidators[k]))
+//@   ensures[C04,C08] forall(k, 0, len(s.anyOfValidators), implies(!old(s.Options.recycleValidators), s.anyOfValidators[k] == old(s.anyOfValidators[k])))
 //@   ensures[C04] forall(k, 0, len(s.anyOfValidators), implies(old(s.Options.recycleValidators) && s.anyOfValidators[k] != nil, !redeemed(old(s.anyOfValidators[k])) && readySV(old(s.anyOfValidators[k]))))
 //@   ensures[C08] implies(!old(s.Options.recycleValidators), unchanged(all(s)))
 //@   loop 1 invariant[C04] resP(mainResult) && resP(keepResultAnyOf) && !redeemed(s) && unchanged(all(s)) && ownsList(s, s.anyOfValidators) && arrsOK(mainResult) && arrsOK(keepResultAnyOf)
@@ -632,8 +632,8 @@ package validate
 //@   requires[C04,C06] entriesOK(s.oneOfValidators) && entriesApart(s.oneOfValidators) && entriesExist(s.oneOfValidators) && ownsList(s, s.oneOfValidators) && resP(mainResult) && resP(keepResultOneOf) && mainResult != keepResultOneOf
 //@   modifies all(mainResult), elems(mainResult.Errors), elems(mainResult.Warnings), all(keepResultOneOf), elems(keepResultOneOf.Errors), elems(keepResultOneOf.Warnings), mapof(keepResultOneOf.cachedFieldSchemata), mapof(keepResultOneOf.cachedItemSchemata)
 //@   ensures[C04] resP(mainResult) && resP(keepResultOneOf) && !redeemed(s) && arrsOK(mainResult) && arrsOK(keepResultOneOf)
-//@   ensures[C04] forall(k, 0, len(s.oneOfValidators), s.oneOfValidators[k] == nil || s.oneOfValidators[k] == old(s.oneOfValidators[k]))
-//@   ensures[C04] forall(k, 0, len(s.oneOfValidators), implies(!old(s.Options.recycleValidators), s.oneOfValidators[k] == old(s.oneOfValidators[k])))
+//@   ensures[C04,C08] forall(k, 0, len(s.oneOfValidators), s.oneOfValidators[k] == nil || s.oneOfValidators[k] == old(s.oneOfValidators[k]))
+//@   ensures[C04,C08] forall(k, 0, len(s.oneOfValidators), implies(!old(s.Options.recycleValidators), s.oneOfValidators[k] == old(s.oneOfValidators[k])))
 //@   ensures[C04] forall(k, 0, len(s.oneOfValidators), implies(old(s.Options.recycleValidators) && s.oneOfValidators[k] != nil, !redeemed(old(s.oneOfValidators[k])) && readySV(old(s.oneOfValidators[k]))))
 //@   ensures[C08] implies(!old(s.Options.recycleValidators), unchanged(all(s)))
 //@   loop 1 invariant[C04] resP(mainResult) && resP(keepResultOneOf) && !redeemed(s) && unchanged(all(s)) && ownsList(s, s.oneOfValidators) && arrsOK(mainResult) && arrsOK(keepResultOneOf)
